@@ -57,7 +57,7 @@ def apply(h, steps, mode):
                         h.perturb(i, k, "delete")
         elif st[0] == "dropblob":
             rr = vlib.Rng(st[1])
-            cands = [(i, k) for i, n in enumerate(h.snap["nodes"]) if n["k"] == "t" for k, o in enumerate(n["outs"]) if o[0] == "file"]
+            cands = [(i, k) for i, n in enumerate(h.snap["nodes"]) if n["k"] == "t" for k, o in enumerate(n["outs"]) if o[0] in ("file", "dir")]
             if cands:
                 i, k = rr.choice(cands)
                 h.drop_blob(i, k)
@@ -310,15 +310,18 @@ def run(out, tier):
     # cache fault while dependency outputs are being loaded, on purpose: c depends on [a, b] (and [b, a]); everything is built and
     # cached; the blob of ONE dependency is lost; the workspace is wiped; c's command changes so that it has to run: both modes have
     # to re-make the lost output AND put the other dependency's output in place before c's command starts
-    def T(name, deps, salt="v0"):
-        return {"k": "t", "pkg": "p", "name": name, "salt": salt, "ins": [], "glob": None, "excl": [], "outs": [("file", name + ".txt")],
+    def T(name, deps, salt="v0", kind="file"):
+        return {"k": "t", "pkg": "p", "name": name, "salt": salt, "ins": [], "glob": None, "excl": [],
+                "outs": [("file", name + ".txt")] if kind == "file" else [("dir", name + "_d")],
                 "deps": deps, "fp": {}, "nocache": False, "multi": False, "beh": "n", "check": False, "comment": ""}
-    for order in ([0, 1], [1, 0]):
-        for lost in (0, 1):
-            s1 = {"nodes": [T("a", []), T("b", []), T("c", order)], "files": {}}
-            s2 = {"nodes": [T("a", []), T("b", []), T("c", order, "v1")], "files": {}}
-            scripts.append(("witness-fault", [("src", s1, "initial"), ("build",), ("dropblob-of", lost, 0), ("wipe-all",),
-                                              ("src", s2, "command (output-relevant) of //p:c"), ("build",), ("build",)]))
+    # ... the lost blob being that of a FILE output, or of the file INSIDE a directory output (the tree blob is still there)
+    for kind in ("file", "dir"):
+        for order in ([0, 1], [1, 0]):
+            for lost in (0, 1):
+                s1 = {"nodes": [T("a", [], kind=kind), T("b", [], kind=kind), T("c", order)], "files": {}}
+                s2 = {"nodes": [T("a", [], kind=kind), T("b", [], kind=kind), T("c", order, "v1")], "files": {}}
+                scripts.append(("witness-fault", [("src", s1, "initial"), ("build",), ("dropblob-of", lost, 0), ("wipe-all",),
+                                                  ("src", s2, "command (output-relevant) of //p:c"), ("build",), ("build",)]))
     plans = []
     for name, steps in scripts:
         for mode in ("all", "min"):
